@@ -1486,6 +1486,33 @@ static int parse_loop(struct scanner_s *scanner, cif_container_tp *container) {
     return result;
 }
 
+/*
+ * Determines whether the name carried by the specified list element is equivalent (as a data name) to that of any
+ * element that precedes it in the list starting at 'head'.  Elements without a name (already-rejected duplicates) and
+ * names that cannot be normalized are ignored.  Returns nonzero if so, zero if not.
+ */
+static int is_repeated_name(string_element_tp *head, string_element_tp *element) {
+    UChar *name_norm;
+    int repeated = 0;
+
+    if (cif_normalize_item_name(element->string, -1, &name_norm, CIF_INVALID_ITEMNAME) == CIF_OK) {
+        string_element_tp *previous;
+
+        for (previous = head; (previous != NULL) && (previous != element) && (repeated == 0); previous = previous->next) {
+            UChar *previous_norm;
+
+            if ((previous->string != NULL)
+                    && (cif_normalize_item_name(previous->string, -1, &previous_norm, CIF_INVALID_ITEMNAME) == CIF_OK)) {
+                repeated = (u_strcmp(name_norm, previous_norm) == 0);
+                free(previous_norm);
+            }
+        }
+        free(name_norm);
+    }
+
+    return repeated;
+}
+
 static int parse_loop_header(struct scanner_s *scanner, cif_container_tp *container, string_element_tp **name_list_head,
         int *name_countp) {
     string_element_tp **next_namep = name_list_head;  /* a pointer to the pointer to the next data name in the header */
@@ -1517,8 +1544,11 @@ static int parse_loop_header(struct scanner_s *scanner, cif_container_tp *contai
                 switch (result = ((container == NULL) ? CIF_NOSUCH_ITEM
                             : cif_container_get_item_loop(container, (*next_namep)->string, NULL))) {
                     case CIF_NOSUCH_ITEM:
-                        /* the expected case */
-                        break;
+                        /* the expected case, unless the name duplicates one that appears earlier in this same header */
+                        if (is_repeated_name(*name_list_head, *next_namep) == 0) {
+                            break;
+                        }
+                        /* fall through */
                     case CIF_OK:
                         /* error: duplicate item name */
                         if ((result = scanner->error_callback(CIF_DUP_ITEMNAME, scanner->line,
